@@ -6,6 +6,14 @@ props = [json.loads(l) for l in open(os.path.join(HERE, "properties.jsonl"))]
 hook_commits = ["9fea0ac"]
 
 CHECKS = {
+ "C11": dict(engine="vdrv+cli", design="3/C11",
+   technique="runtime monitoring: reference-model oracle (Python scope resolver: one global table plus one per .scope/.func, local first then global) compared with the words the real assembler emits for `.dc32 name`, the ELF .symtab of the real CLI and the listing symbol table, in the ASan/UBSan build",
+   text="Exploration: seeded programs with 1..5000 labels (up to 6 symbol pools, entries ending at 32767/32768/32769), 0..200 .scope/.func blocks, shadowed names, forward/backward references inside and outside scopes, .set chains and .export; every reference's emitted value is compared with the resolver; duplicate definitions and references to foreign-scope/undefined names must be rejected; exported symbols must appear in .symtab with their addresses.",
+   note="ELF facts judged only on byte-addressed CPUs; nested scopes, .export of local names, names > 254 characters are outside the domain. Multi-pool programs go through the CLI/hex path because symbol enumeration itself is defective there (known finding S12)."),
+ "C18": dict(engine="cli+vdrv", design="3/C18",
+   technique="runtime monitoring: listing monitor: the -l listing written by the real CLI is parsed line by line and every instruction line, data-section row, symbol row and low/high summary is compared with the hex and bin output of the same run; instruction text is compared with the in-process disassembly of exactly the bytes shown",
+   text="Exploration: generated multi-construct programs (multi-word instructions, data between code, several .org segments, macros, .repeat, .include, > 762 symbols) for the 49 corpus CPUs; per line the opcode column must start with the CPU family's rendering of the output bytes at that address (hex-digit-wise, whitespace-insensitive), every written byte must be covered by an instruction line or a dump row, symbol values and the address summary must match the image.",
+   note="cpu->rendering-family table is static and was learnt on the unchanged tree; re-spacing or widening columns does not trip it. CPUs without a tests/comparison file are not driven. ps2_ee_vu1 text facet skipped (two disassemblies per line)."),
  "C01": dict(engine="vdrv", design="3/C01",
    technique="runtime monitoring: round-trip monitor (real assembler -> real disassembler walk -> real assembler) over the instruction corpus with operand substitution in the ASan/UBSan build, plus reference MSP430/RV32I encoders as an independent oracle",
    text="Exploration: every tests/comparison instruction form of 49 CPUs x boundary operand substitution x load addresses is assembled, the disassembler is walked over exactly the emitted bytes (length tiling) and the rendering re-assembled at the same address (byte equality); MSP430 core and RV32I forms are also compared with encoders written from the manuals. Violations present in the unchanged tree are catalogued per (cpu, mnemonic, kind) with instance lists; anything outside the catalogue is reported.",
